@@ -110,7 +110,7 @@ impl<Fut: Future> FuturesOrderedBounded<Fut> {
     pub fn new(capacity: usize) -> Self {
         Self {
             in_progress_queue: FuturesUnorderedBounded::new(capacity),
-            queued_outputs: BinaryHeap::with_capacity(capacity - 1),
+            queued_outputs: BinaryHeap::with_capacity(capacity.saturating_sub(1)),
             next_incoming_index: Wrapping(0),
             next_outgoing_index: Wrapping(0),
         }
